@@ -415,6 +415,7 @@ func init() {
 		}
 		st.locked, st.owner = true, th.id
 		m.acquire(th, st.vc)
+		m.lockAcquired(th, a[0].(*Cell))
 		return nil, true
 	})
 	reg("(*sync.Mutex).TryLock", func(m *Machine, th *Thread, fn *ssa.Function, a []Value) (Value, bool) {
@@ -439,6 +440,7 @@ func init() {
 		}
 		st.locked = false
 		m.release(th, &st.vc)
+		m.lockReleased(th, a[0].(*Cell))
 		return nil, true
 	})
 	rw := func(m *Machine, c *Cell) *rwSt {
@@ -465,6 +467,7 @@ func init() {
 		st.writer = true
 		m.acquire(th, st.vcW)
 		m.acquire(th, st.vcR)
+		m.lockAcquired(th, a[0].(*Cell))
 		if os.Getenv("GOSYM_TRACE") != "" {
 			fmt.Fprintf(os.Stderr, "T%d RW.Lock %p vcW=%v -> vc=%v at %s\n", th.id, a[0].(*Cell), st.vcW, th.vc, m.whereShort(th))
 		}
@@ -480,6 +483,7 @@ func init() {
 		}
 		st.writer = false
 		m.release(th, &st.vcW)
+		m.lockReleased(th, a[0].(*Cell))
 		if os.Getenv("GOSYM_TRACE") != "" {
 			fmt.Fprintf(os.Stderr, "T%d RW.Unlock %p vcW=%v at %s\n", th.id, a[0].(*Cell), st.vcW, m.whereShort(th))
 		}
@@ -495,6 +499,7 @@ func init() {
 		}
 		st.readers++
 		m.acquire(th, st.vcW)
+		m.lockAcquired(th, a[0].(*Cell))
 		return nil, true
 	})
 	reg("(*sync.RWMutex).RUnlock", func(m *Machine, th *Thread, fn *ssa.Function, a []Value) (Value, bool) {
@@ -507,6 +512,7 @@ func init() {
 		}
 		st.readers--
 		m.release(th, &st.vcR)
+		m.lockReleased(th, a[0].(*Cell))
 		return nil, true
 	})
 	reg("(*sync.RWMutex).TryLock", func(m *Machine, th *Thread, fn *ssa.Function, a []Value) (Value, bool) {
